@@ -6,12 +6,15 @@ import ComposeVerif.Model.Path
 Model of `ApplyExtends`, `applyServiceExtends`, `getExtendsBaseFromFile`, `cycleTracker.Add`
 and `deepClone`, quirks included:
 
-* the tracker records `(refFile, extendingName)` — for a same-file step `refFile` is the file name
-  found in the context (always the *main* file, also while walking inside a base file);
+* the tracker records `(current file, extendingName)`: the main file's name for services of the main
+  file, the reference string for services of an extended file (since `fix: the extends cycle tracker
+  records the file the extending service lives in`; before it the key was `(refFile, extendingName)`
+  with the *main* file's name for every same-file step — see `Neg/C05.lean`, pre-fix model);
 * a resolved service is written back into the map it came from (`services[name] = merged`) only
   on a same-file step; on a cross-file step the write goes to the freshly loaded (discarded) map;
 * a `null` base leaves the extending service untouched (its `extends` attribute stays);
-* `extends: {file: f}` without a string `service`, or with a non-string `file`, panics;
+* `extends: {file: f}` without a string `service`, or with a non-string `file`, is an error
+  (it was a panic before the repair `fix: extends with a non-string service or file …`);
   an `extends` value that is neither a string nor a mapping behaves like `extends: ""`.
 
 Parameters (an `Env`): the name of the main file, the *file system* `fs` — for every reference
@@ -40,7 +43,17 @@ inductive FileRes where
       file's directory; `resolveErr` = `paths.ResolveRelativePaths` failed (it runs *after* the
       `services` / base-present checks) -/
   | ok (doc : KVs) (resolveErr : Bool)
+  /-- the document loads but `paths.ResolveRelativePaths` panics at `site` (a non-string `extends.file` inside
+      the extended file reaches `absExtendsPath`); like `resolveErr` this happens *after* the `services` /
+      base-present checks -/
+  | okResolvePanic (doc : KVs) (site : String)
 deriving Repr, Inhabited
+
+/-- the Go function in which loading the file panics, if it does -/
+def FileRes.panicSite? : FileRes → Option String
+  | .panic s => some s
+  | .okResolvePanic _ s => some s
+  | _ => none
 
 abbrev FS := List (String × FileRes)
 
@@ -54,6 +67,9 @@ structure Env where
 def fsLookup (f : String) : FS → Option FileRes
   | [] => none
   | (k, r) :: rest => if f = k then some r else fsLookup f rest
+
+/-- loading file `f` panics at `s` (while loading, or while resolving its relative paths) -/
+def fsPanics (fs : FS) (f s : String) : Prop := ∃ r, fsLookup f fs = some r ∧ r.panicSite? = some s
 
 /-- `cycleTracker.Add` -/
 def trackerAdd (tr : List Key) (k : Key) : Option (List Key) :=
@@ -74,8 +90,8 @@ def parseExtends : Val → Out (String × Option String)
       | none => .ok (r, none)
       | some .null => .ok (r, none)
       | some (.str f) => .ok (r, some f)
-      | some _ => .panic panicSite          -- file.(string)
-    | _ => .panic panicSite                  -- v["service"].(string)
+      | some _ => .err "extendsFileNotString"      -- "services.%s.extends.file must be a string"
+    | _ => .err "extendsServiceNotString"          -- "services.%s.extends.service must be a string"
   | _ => .ok ("", none)
 
 /-- `getExtendsBaseFromFile` (local resource loader) -/
@@ -92,25 +108,39 @@ def baseFromFile (fs : FS) (refPath ref : String) : Out KVs :=
       | none => .err "notFoundInFile"
       | some _ => if rerr then .err "resolveErr" else .ok svcs
     | some _ => .err "fileServicesNotMapping"
+  | some (.okResolvePanic doc site) =>
+    match lookup "services" doc with
+    | none => .err "noServices"
+    | some (.map svcs) =>
+      match lookup ref svcs with
+      | none => .err "notFoundInFile"
+      | some _ => .panic site
+    | some _ => .err "fileServicesNotMapping"
 
 /-- where the base lives: (map to recurse in, tracker key, same-file?) -/
-def resolveBase (E : Env) (name ref : String) (file : Option String) (services : KVs) :
+def resolveBase (E : Env) (cur name ref : String) (file : Option String) (services : KVs) :
     Out (KVs × Key × Bool) :=
   match file with
   | none =>
     match lookup ref services with
     | none => .err "notFound"
-    | some _ => .ok (services, (E.mainFile, name), true)
+    | some _ => .ok (services, (cur, name), true)
   | some f =>
     match baseFromFile E.fs f ref with
-    | .ok svcs => .ok (svcs, (f, name), false)
+    | .ok svcs => .ok (svcs, (cur, name), false)
     | .err c => .err c
     | .panic s => .panic s
 
-/-- `applyServiceExtends`: the resolved service and the (possibly memoised) `services` map of the caller -/
-def applySvc (E : Env) : Nat → String → KVs → List Key → Out (Val × KVs)
-  | 0, _, _, _ => .panic fuelMark
-  | fuel + 1, name, services, tr =>
+/-- the file the base lives in: the referenced file, or the current one -/
+def nextFile (cur : String) : Option String → String
+  | none => cur
+  | some f => f
+
+/-- `applyServiceExtends` for service `name` of the file `cur` (the `ComposeFileKey` of the context):
+the resolved service and the (possibly memoised) `services` map of the caller -/
+def applySvc (E : Env) : Nat → String → String → KVs → List Key → Out (Val × KVs)
+  | 0, _, _, _, _ => .panic fuelMark
+  | fuel + 1, cur, name, services, tr =>
     match lookup name services with
     | none => .ok (.null, services)
     | some .null => .ok (.null, services)
@@ -122,14 +152,14 @@ def applySvc (E : Env) : Nat → String → KVs → List Key → Out (Val × KVs
         | .panic s => .panic s
         | .err c => .err c
         | .ok (ref, file) =>
-          match resolveBase E name ref file services with
+          match resolveBase E cur name ref file services with
           | .panic s => .panic s
           | .err c => .err c
           | .ok (svcs, key, same) =>
             match trackerAdd tr key with
             | none => .err "circular"
             | some tr' =>
-              match applySvc E fuel ref svcs tr' with
+              match applySvc E fuel (nextFile cur file) ref svcs tr' with
               | .panic s => .panic s
               | .err c => .err c
               | .ok (base, svcs') =>
@@ -149,7 +179,7 @@ def applySvc (E : Env) : Nat → String → KVs → List Key → Out (Val × KVs
 def applyAll (E : Env) (fuel : Nat) : List String → KVs → Out KVs
   | [], S => .ok S
   | n :: ns, S =>
-    match applySvc E fuel n S [] with
+    match applySvc E fuel E.mainFile n S [] with
     | .ok (v, S') => applyAll E fuel ns (insert n v S')
     | .err c => .err c
     | .panic s => .panic s
@@ -158,6 +188,7 @@ def applyAll (E : Env) (fuel : Nat) : List String → KVs → Out KVs
 def fileNames : FileRes → List String
   | .err _ => []
   | .panic _ => []
+  | .okResolvePanic _ _ => []
   | .ok doc _ => match lookup "services" doc with
     | some (.map svcs) => keys svcs
     | _ => []
